@@ -179,6 +179,11 @@ structure RxWorld (w : World) (g : RxG) : Prop where
   chip : RxChip w.chip g
   nosched : w.sched = []
   nofault : w.faults = []
+  clean : g.faulted = false
+
+theorem RxG.take_faulted (g : RxG) (n : Nat) : (g.take n).faulted = g.faulted := by
+  unfold RxG.take
+  repeat (first | rfl | split | dsimp only)
 
 def rxAbs (w : World) (g : RxG) : Prop := g.poison = true ∨ g.ended = true ∨ RxWorld w g
 
@@ -297,7 +302,7 @@ theorem rx_covers (onCb : CbEvent → Handle → World → Outcome Handle) : Cov
         by_cases hn : n ≤ g.fifo.length
         · have hn' : n ≤ w.chip.fifo.length := by rw [hw.chip.fifo]; exact hn
           rw [readN_fifo_fsk n w.chip hw.chip.fsk hn']
-          refine ⟨g.take n, rxR_quiet hl hw.chip.room _ _ _ trivial ?_, Or.inr (Or.inr ⟨hw.chip.take n hn, hw.nosched, hw.nofault⟩)⟩
+          refine ⟨g.take n, rxR_quiet hl hw.chip.room _ _ _ trivial ?_, Or.inr (Or.inr ⟨hw.chip.take n hn, hw.nosched, hw.nofault, by rw [RxG.take_faulted]; exact hw.clean⟩)⟩
           unfold rxAnswer
           simp only [↓reduceIte]
           exact ⟨trivial, by rw [hw.chip.fifo]; simp; exact Nat.min_eq_left hn, fun _ => by rw [hw.chip.fifo]⟩
@@ -323,7 +328,7 @@ theorem rx_covers (onCb : CbEvent → Handle → World → Outcome Handle) : Cov
         obtain ⟨v, rfl⟩ : ∃ v, d = [v] := by
           match d, hlen with
           | [v], _ => exact ⟨v, rfl⟩
-        refine ⟨if v &&& 0x10 ≠ 0 then g.flush else g, rxR_quiet hl hw.chip.room _ _ _ trivial ?_, Or.inr (Or.inr ⟨?_, hw.nosched, hw.nofault⟩)⟩
+        refine ⟨if v &&& 0x10 ≠ 0 then g.flush else g, rxR_quiet hl hw.chip.room _ _ _ trivial ?_, Or.inr (Or.inr ⟨?_, hw.nosched, hw.nofault, by split <;> exact hw.clean⟩)⟩
         · unfold rxAnswer
           simp only [List.length_singleton, and_self, ↓reduceIte, List.headD_cons]
           rfl
@@ -336,7 +341,7 @@ theorem rx_covers (onCb : CbEvent → Handle → World → Outcome Handle) : Cov
           obtain ⟨v, rfl⟩ : ∃ v, d = [v] := by
             match d, hlen with
             | [v], _ => exact ⟨v, rfl⟩
-          refine ⟨g, rxR_quiet hl hw.chip.room _ _ _ trivial ?_, Or.inr (Or.inr ⟨?_, hw.nosched, hw.nofault⟩)⟩
+          refine ⟨g, rxR_quiet hl hw.chip.room _ _ _ trivial ?_, Or.inr (Or.inr ⟨?_, hw.nosched, hw.nofault, hw.clean⟩)⟩
           · unfold rxAnswer
             simp only [List.length_singleton, and_true, show ¬((0x3e:Nat) = 0x3f) by decide, ↓reduceIte]
           · show RxChip (w.chip.writeN 0x3e [v]) g
@@ -366,15 +371,15 @@ theorem rx_covers (onCb : CbEvent → Handle → World → Outcome Handle) : Cov
     · have hw := rxAbs_live hl ha
       have hc := hw.chip
       rw [rread_quiet w hw.nosched hw.nofault]
-      have same : ∀ (g' : RxG), RxChip w.chip g' → ∀ (a : Nat), a % 128 ≠ 0 →
+      have same : ∀ (g' : RxG), RxChip w.chip g' → g'.faulted = false → ∀ (a : Nat), a % 128 ≠ 0 →
           rxAbs { w with xfer := w.xfer + 1, chip := (w.chip.readN a 1).2, bus := .r a 1 (.ok (be32 (w.chip.readN a 1).1)) :: w.bus } g' := by
-        intro g' hg' a ha0
+        intro g' hg' hcl a ha0
         rw [readN_one _ _ ha0]
-        exact Or.inr (Or.inr ⟨hg', hw.nosched, hw.nofault⟩)
+        exact Or.inr (Or.inr ⟨hg', hw.nosched, hw.nofault, hcl⟩)
       by_cases h3f : reg = 0x3f
       · subst h3f
         refine ⟨{ g with irq := (be32 (w.chip.readN 0x3f 1).1).toUInt8 }, rxR_quiet hl hc.room _ _ _ trivial ?_,
-          same { g with irq := (be32 (w.chip.readN 0x3f 1).1).toUInt8 } ⟨hc.fifo, hc.fsk, hc.thr, hc.ready, hc.crc, hc.sent, hc.ovr, hc.cfg1, hc.cfg2, hc.plen, hc.room, hc.len⟩ 0x3f (by decide)⟩
+          same { g with irq := (be32 (w.chip.readN 0x3f 1).1).toUInt8 } ⟨hc.fifo, hc.fsk, hc.thr, hc.ready, hc.crc, hc.sent, hc.ovr, hc.cfg1, hc.cfg2, hc.plen, hc.room, hc.len⟩ hw.clean 0x3f (by decide)⟩
         unfold rxAnswer
         simp only [↓reduceIte, true_and]
         rw [readN_one _ 0x3f (by decide)]
@@ -385,7 +390,7 @@ theorem rx_covers (onCb : CbEvent → Handle → World → Outcome Handle) : Cov
         by_cases h1 : 1 ≤ g.fifo.length
         · have h1' : 1 ≤ w.chip.fifo.length := by rw [hc.fifo]; exact h1
           rw [readN_fifo_fsk 1 w.chip hc.fsk h1']
-          refine ⟨g.take 1, rxR_quiet hl hc.room _ _ _ trivial ?_, Or.inr (Or.inr ⟨hc.take 1 h1, hw.nosched, hw.nofault⟩)⟩
+          refine ⟨g.take 1, rxR_quiet hl hc.room _ _ _ trivial ?_, Or.inr (Or.inr ⟨hc.take 1 h1, hw.nosched, hw.nofault, by rw [RxG.take_faulted]; exact hw.clean⟩)⟩
           unfold rxAnswer
           simp only [show ¬((0:Nat) = 0x3f) by decide, ↓reduceIte, true_and]
           intro _
@@ -402,7 +407,7 @@ theorem rx_covers (onCb : CbEvent → Handle → World → Outcome Handle) : Cov
             rw [if_neg (by decide), if_neg h1]
       by_cases h30 : reg = 0x30
       · subst h30
-        refine ⟨g, rxR_quiet hl hc.room _ _ _ trivial ?_, same g hc 0x30 (by decide)⟩
+        refine ⟨g, rxR_quiet hl hc.room _ _ _ trivial ?_, same g hc hw.clean 0x30 (by decide)⟩
         unfold rxAnswer
         simp only [show ¬((0x30:Nat) = 0x3f) by decide, show ¬((0x30:Nat) = 0) by decide, ↓reduceIte, true_and]
         rw [readN_one _ 0x30 (by decide)]
@@ -410,7 +415,7 @@ theorem rx_covers (onCb : CbEvent → Handle → World → Outcome Handle) : Cov
         exact hc.cfg1
       by_cases h31 : reg = 0x31
       · subst h31
-        refine ⟨g, rxR_quiet hl hc.room _ _ _ trivial ?_, same g hc 0x31 (by decide)⟩
+        refine ⟨g, rxR_quiet hl hc.room _ _ _ trivial ?_, same g hc hw.clean 0x31 (by decide)⟩
         unfold rxAnswer
         simp only [show ¬((0x31:Nat) = 0x3f) by decide, show ¬((0x31:Nat) = 0) by decide, show ¬((0x31:Nat) = 0x30) by decide, ↓reduceIte, true_and]
         rw [readN_one _ 0x31 (by decide)]
@@ -418,7 +423,7 @@ theorem rx_covers (onCb : CbEvent → Handle → World → Outcome Handle) : Cov
         exact hc.cfg2
       by_cases h32 : reg = 0x32
       · subst h32
-        refine ⟨g, rxR_quiet hl hc.room _ _ _ trivial ?_, same g hc 0x32 (by decide)⟩
+        refine ⟨g, rxR_quiet hl hc.room _ _ _ trivial ?_, same g hc hw.clean 0x32 (by decide)⟩
         unfold rxAnswer
         simp only [show ¬((0x32:Nat) = 0x3f) by decide, show ¬((0x32:Nat) = 0) by decide, show ¬((0x32:Nat) = 0x30) by decide,
           show ¬((0x32:Nat) = 0x31) by decide, ↓reduceIte, true_and]
@@ -426,7 +431,7 @@ theorem rx_covers (onCb : CbEvent → Handle → World → Outcome Handle) : Cov
         simp only [show (0x32 % 128) = 0x32 from rfl, be32_single, peek_fsk _ _ hc.fsk (show inPage 0x32 = true by decide) (by decide)]
         exact hc.plen
       by_cases h3e : reg = 0x3e ∨ reg = 0x11
-      · refine ⟨g, rxR_quiet hl hc.room _ _ _ trivial ?_, same g hc reg (by rcases h3e with e | e <;> rw [e] <;> decide)⟩
+      · refine ⟨g, rxR_quiet hl hc.room _ _ _ trivial ?_, same g hc hw.clean reg (by rcases h3e with e | e <;> rw [e] <;> decide)⟩
         unfold rxAnswer
         simp only [h3f, h00, h30, h31, h32, h3e, ↓reduceIte]
       · refine ⟨{ g with poison := true }, rxR_quiet hl hc.room _ _ _ trivial ?_, rxAbs_poison _ _⟩
